@@ -174,11 +174,13 @@ func (c *checker) program() *rej {
 			return no("illformed-type:"+r, "process %d type", i)
 		}
 	}
-	for _, e := range p.Execs {
+	execTy := map[string]*Ty{} // exec<i>, the name of the process made by the i-th exec declaration
+	for i, e := range p.Execs {
 		f := c.fns[e]
 		if f == nil || len(f.Params) != 0 {
 			return unk("exec-of-unknown-function", "exec %s", e)
 		}
+		execTy[fmt.Sprintf("exec%d", i+1)] = f.Ret
 	}
 	used := map[string]bool{}
 	for i, pr := range p.Procs {
@@ -202,7 +204,7 @@ func (c *checker) program() *rej {
 			if own {
 				continue
 			}
-			if _, ok := owner[v]; !ok {
+			if _, ok := owner[v]; !ok && execTy[v] == nil {
 				return no("unbound", "process %d uses %s", i, v)
 			}
 			if used[v] {
@@ -245,6 +247,8 @@ func (c *checker) program() *rej {
 				if !own {
 					g.set(v, p.Procs[j].T)
 				}
+			} else if t := execTy[v]; t != nil {
+				g.set(v, t)
 			}
 		}
 		if len(pr.Names) > 1 && !pr.T.M.Contract() {
